@@ -396,6 +396,17 @@ func measure(log []Event) histStats {
 func addCase(w *lib.Writer, j Job, r Result) {
 	id := w.NextID()
 	switch j.Kind {
+	case "share":
+		// the race on the shared table is the observation (known finding C13-1); a crash of the
+		// runtime ("concurrent map read and map write") is the same race seen by the runtime
+		raced := r.Status == "race" || (r.Status == "crash" && strings.Contains(r.Msg, "concurrent map"))
+		c := lib.Case{Input: j, KF: j.KF, Class: "share", Nontrivial: true,
+			Observed: map[string]any{"status": r.Status, "raced": raced, "msg": trunc(r.Msg, 800)},
+			Coq:      "CShare " + lib.CoqBool(raced)}
+		w.Add(c)
+		if !raced && r.Status != "ok" {
+			w.GoFail(id, "share job: "+r.Status+": "+trunc(r.Msg, 800))
+		}
 	case "hist":
 		c := lib.Case{Input: j, KF: j.KF, Class: "hist-" + j.Hist.Class}
 		st := measure(r.Log)
